@@ -4,6 +4,7 @@ mod c04;
 mod c08;
 mod c12;
 mod c15;
+mod c16;
 mod e2;
 mod fam;
 mod histpub;
@@ -21,6 +22,7 @@ fn main() {
         "C08" => c08::run(tier),
         "C12" => c12::run(tier),
         "C15" => c15::run(tier),
+        "C16" => c16::run(tier),
         p => machinery(&format!("pubcheck does not know property {p}")),
     }
 }
